@@ -17,6 +17,58 @@ def compose(tab, prim, other_tabs):
     return r
 
 
+FIELD_WALK_OK = {"iter", "iter_mut", "into_iter", "map", "enumerate", "collect", "zip", "peekable", "by_ref", "cloned", "copied", "is_empty", "len", "first", "unwrap",
+                 "get", "as_slice", "for_each", "inspect", "count", "all", "any", "join", "expect", "to_vec", "clone", "unzip", "fold"}
+
+
+def field_walk_rules(ck, rule, facts, backends):
+    """Every walk over a struct definition's field list in the named backends visits all fields, in declaration order: the chain of iterator adaptors between
+    `def.fields` and its consumer contains only cardinality- and order-preserving steps, and a `for` loop over the fields has no `continue` / `break`.
+    (A dropped or reordered field changes the layout the foreign side declares for the same repr(C) struct.)  Shared by C01 (c, cpp), C07 (dart, kotlin), C08 (js)."""
+    tool = facts.tool
+    nwalk = 0
+    for f in tool.fn_list:
+        if "hir" not in f or f.get("exp"):
+            continue
+        p_ = C.norm_path(f["path"])
+        be = p_.split("::")[1] if p_.count("::") >= 2 else ""
+        if be not in backends:
+            continue
+        top = set()
+        sub = set()
+        for n in C.walk(C.fn_body(f)):
+            if n.get("k") == "mcall":
+                sub.add(id(C.strip(n["recv"])))
+        for n in C.walk(C.fn_body(f)):
+            if n.get("k") != "mcall" or id(n) in sub:
+                continue   # only maximal chains
+            ch, r = [], n
+            while isinstance(r, dict) and r.get("k") == "mcall":
+                ch.append(r["m"])
+                r = C.strip(r["recv"])
+            if not (isinstance(r, dict) and r.get("k") == "field" and r.get("n") == "fields" and "StructDef" in (r.get("bty") or "")):
+                continue
+            ch = list(reversed(ch))
+            # the walk proper ends at the first consumer that leaves the iterator world
+            walk = []
+            for m_ in ch:
+                walk.append(m_)
+                if m_ in ("collect", "for_each", "count", "all", "any", "join", "fold", "unzip", "to_vec", "first", "len", "is_empty", "get"):
+                    break
+            bad = [m_ for m_ in walk if m_ not in FIELD_WALK_OK]
+            nwalk += 1
+            key = "%s/fields-walk#%d" % (p_.replace("diplomat_tool::", ""), sum(1 for i in ck.instances if i["rule"] == rule and i["key"].startswith(p_.replace("diplomat_tool::", "") + "/fields-walk")))
+            ck.expect(not bad, rule, key, ".".join(walk), "the struct's field list is walked through `%s`: fields are dropped or reordered on the foreign side only, so the declared record no longer has the layout of "
+                      "the repr(C) struct Rust compiled (wrong offsets / size for by-value uses)" % ".".join(bad), C.loc(f, n.get("ln")))
+        for lp in C.walk(C.fn_body(f)):
+            if lp.get("k") == "for" and any(x.get("k") == "field" and x.get("n") == "fields" and "StructDef" in (x.get("bty") or "") for x in C.walk(lp["iter"])):
+                nwalk += 1
+                skips = [x.get("k") for x in C.walk(lp["body"]) if x.get("k") in ("continue", "break")]
+                ck.expect(not skips, rule, "%s/fields-loop" % p_.replace("diplomat_tool::", ""), "no continue/break", "the loop over the struct's fields skips some of them (%s)" % skips, C.loc(f, lp.get("ln")))
+    if nwalk < 3:
+        ck.bad(rule, "fields-walk-floor/" + "+".join(sorted(backends)), "only %d walks over StructDef.fields found in %s" % (nwalk, sorted(backends)))
+
+
 def run(ck, facts):
     tool, core = facts.tool, facts.core
     adts = facts.all_adts()
@@ -267,6 +319,8 @@ def run(ck, facts):
     m = re.search(r"class Slice: Structure\(\), Structure\.ByValue \{(.*?)override fun getFieldOrder", initk, re.S)
     oksl = bool(m) and re.findall(r"@JvmField var (\w+): (\w+)", m.group(1)) == [("data", "Pointer"), ("len", "FFISizet")]
     ck.expect(oksl, "R2", "kotlin/init.kt/Slice", "data: Pointer; len: FFISizet", "JNA Slice is not {data: Pointer, len: FFISizet}", "tool/templates/kotlin/init.kt.jinja")
+
+    field_walk_rules(ck, "R2", facts, {"dart", "kotlin"})
 
     # ---------------- R3 order
     dg = tool.fn("dart::TyGenContext::gen_method_info")
